@@ -284,9 +284,42 @@ func ruleRearmGated(c *Ctx, r *R) {
 }
 
 func ruleNilableTimer(c *Ctx, r *R) {
+	// the timer, or - stopPending func() bool, set to pending.Stop - the bound Stop method of the timer kept in its place: a
+	// func-typed field of the ticker that only ever holds (*time.Timer).Stop method values (or nil)
+	stopFuncField := map[int]bool{}
+	for _, fn := range c.funcsOfPkg("xtime") {
+		instrs(fn, func(_ *ssa.BasicBlock, _ int, in ssa.Instruction) {
+			st, ok := in.(*ssa.Store)
+			if !ok {
+				return
+			}
+			fa, ok := st.Addr.(*ssa.FieldAddr)
+			if !ok || !isTickerOwned(fa.X.Type()) {
+				return
+			}
+			if _, isSig := fa.Type().(*types.Pointer).Elem().Underlying().(*types.Signature); !isSig || isNilConst(st.Val) {
+				return
+			}
+			isStop := false
+			if f, rv := funcAndReceiver(st.Val); f != nil && rv != nil && f.Name() == "Stop" && f.Signature.Recv() != nil && isNamedTypeDeep(f.Signature.Recv().Type(), "time", "Timer") {
+				isStop = true
+			}
+			if prev, seen := stopFuncField[fa.Field]; seen {
+				stopFuncField[fa.Field] = prev && isStop
+			} else {
+				stopFuncField[fa.Field] = isStop
+			}
+		})
+	}
 	isTimerField := func(addr ssa.Value) bool {
 		fa, ok := addr.(*ssa.FieldAddr)
-		return ok && isTickerOwned(fa.X.Type()) && isNamedTypeDeep(fa.Type().(*types.Pointer).Elem(), "time", "Timer")
+		if !ok || !isTickerOwned(fa.X.Type()) {
+			return false
+		}
+		if isNamedTypeDeep(fa.Type().(*types.Pointer).Elem(), "time", "Timer") {
+			return true
+		}
+		return stopFuncField[fa.Field]
 	}
 	// is the field ever set to nil?
 	nilled := false
@@ -317,10 +350,13 @@ func ruleNilableTimer(c *Ctx, r *R) {
 	for _, fn := range c.funcsOfPkg("xtime") {
 		instrs(fn, func(b *ssa.BasicBlock, i int, in ssa.Instruction) {
 			call, ok := in.(*ssa.Call)
-			if !ok || call.Call.IsInvoke() || len(call.Call.Args) == 0 {
+			if !ok || call.Call.IsInvoke() {
 				return
 			}
 			cal := call.Call.StaticCallee()
+			if cal != nil && len(call.Call.Args) == 0 {
+				return
+			}
 			if cal != nil && cal.Blocks != nil && c.inModule(cal) && cal.Signature.Recv() == nil {
 				// the possibly-nil timer handed to a helper of the package (stopTimer(t.timer)): every method call through that
 				// parameter in the helper must be under a nil test of the parameter
@@ -356,11 +392,21 @@ func ruleNilableTimer(c *Ctx, r *R) {
 				}
 				return
 			}
-			if cal == nil || cal.Signature.Recv() == nil || !isNamedTypeDeep(cal.Signature.Recv().Type(), "time", "Timer") {
-				return
-			}
-			ld, ok := resolveVal(call.Call.Args[0]).(*ssa.UnOp)
-			if !ok || ld.Op != token.MUL || !isTimerField(ld.X) {
+			what := ""
+			if cal != nil && cal.Signature.Recv() != nil && isNamedTypeDeep(cal.Signature.Recv().Type(), "time", "Timer") {
+				ld, ok := resolveVal(call.Call.Args[0]).(*ssa.UnOp)
+				if !ok || ld.Op != token.MUL || !isTimerField(ld.X) {
+					return
+				}
+				what = fname(cal)
+			} else if cal == nil {
+				// t.stopPending(): the kept Stop method value called through the field
+				ld, ok := call.Call.Value.(*ssa.UnOp)
+				if !ok || ld.Op != token.MUL || !isTimerField(ld.X) {
+					return
+				}
+				what = "Stop"
+			} else {
 				return
 			}
 			n++
@@ -404,7 +450,7 @@ func ruleNilableTimer(c *Ctx, r *R) {
 				r.excepted(c.nameOf(fn)+"|timer-deref#"+itoa(n), call.Pos(), "Stop on a ticker that is already stopped dereferences the nil timer; a second Stop is outside C20's statement (which covers New/Reset/ticks/one Stop), so this site is listed, not claimed")
 				return
 			}
-			r.ok(safe, c.nameOf(fn)+"|timer-deref#"+itoa(n), call.Pos(), "t.timer."+fname(cal)+"() without a t.timer != nil test: Stop sets the field to nil, so this call panics (with the mutex held) for a ticker that was stopped - e.g. Reset after Stop")
+			r.ok(safe, c.nameOf(fn)+"|timer-deref#"+itoa(n), call.Pos(), "t.timer."+what+"() without a t.timer != nil test: Stop sets the field to nil, so this call panics (with the mutex held) for a ticker that was stopped - e.g. Reset after Stop")
 		})
 	}
 	if n == 0 {
